@@ -408,8 +408,8 @@ class Runner:
         out['hooks'] = [sorted(set(t for (sl, t) in self.hlog[h0:] if sl == k)) for k in range(4)]
         out['supplied_mutated'] = [j for j, m in enumerate(self.ms) if m.supplied_mutated()]
         self.results.append((ci, out))
-        if out['capped'] or out['err']:
-            self.dead = True
+        if out['capped'] or out['err'] or not math.isfinite(self.now()) or any(not math.isfinite(t) for t in out['times']):
+            self.dead = True      # a broken clock is reported for this call; later calls would start from garbage
 
 
 def run_history(c):
